@@ -318,7 +318,7 @@ int op_conn(int id, int n, char **t) {
         printf("ok"); return 1;
     }
     if (!strcmp(t[0], "zon") && n == 1) { printf("ok"); return 1; }
-    if ((!strcmp(t[0], "req") || !strcmp(t[0], "res")) && (n == 2 || (n == 3 && t[0][2] == 's'))) {
+    if ((!strcmp(t[0], "req") || !strcmp(t[0], "res")) && (n == 2 || n == 3)) {
         unsigned char *a; long al = hex_parse(t[1], &a); if (al < 0) return 0;
         /* exact-size heap copy so that ASan sees any read past the chunk */
         unsigned char *buf = malloc(al ? al : 1); memcpy(buf, a, al); free(a);
